@@ -208,6 +208,14 @@ def coq_eval(name, text, timeout=900):
     return rc == 0, so + se
 
 
+def coqchk(module, timeout=3000):
+    """Independent re-check of a compiled module and everything it depends on; -o lists the axioms."""
+    with CoqLock():
+        rc, so, se, dt = run(["timeout", str(timeout), "coqchk", "-silent", "-o", "-Q", ".", "Dae", module], cwd=COQ, timeout=timeout + 30)
+    log("coqchk %s: rc=%d %.0fs" % (module, rc, dt))
+    return rc == 0, so + se
+
+
 THEOREM_RE = re.compile(r"^\s*(Theorem|Lemma|Corollary|Example)\s+([A-Za-z0-9_']+)", re.M)
 FORBIDDEN_RE = re.compile(
     r"\b(Admitted|admit|Axiom|Axioms|Parameter|Parameters|Conjecture|Abort All|Unset Guard Checking|"
